@@ -187,6 +187,22 @@ theorem C34_dict_innermost_geo (t : ONode) (hgeo : geo t = true) :
     · exact self_mem_nodes _
     · exact absurd hsp (h3 n' h)
 
+/-- **"The innermost one" is well defined.**  Under `geo` two objects of the model with the same span, neither
+of which has an object with that span strictly inside, are the same node: the value `C34_dict_innermost_geo`
+describes is unique — it does not depend on the order in which `process_node` happens to visit the children. -/
+theorem C34_innermost_unique (t : ONode) (hgeo : geo t = true) (n1 n2 : ONode) (h1 : n1 ∈ nodes t) (h2 : n2 ∈ nodes t)
+    (hs : n1.span = n2.span) (hi1 : ∀ x ∈ properDesc n1, x.span ≠ n1.span)
+    (hi2 : ∀ x ∈ properDesc n2, x.span ≠ n2.span) : n1 = n2 := by
+  rcases geo_comparable t hgeo n1 h1 n2 h2 hs with h | h
+  · rw [nodes_eq] at h
+    rcases List.mem_cons.1 h with h | h
+    · exact h
+    · exact absurd hs (hi2 n1 h)
+  · rw [nodes_eq] at h
+    rcases List.mem_cons.1 h with h | h
+    · exact h.symm
+    · exact absurd hs.symm (hi1 n2 h)
+
 open Obj in
 /-- **The geometry is a theorem about `process_node`, not an assumption.**  For every well-formed
 parse tree, metamodel and truthiness of objects: the containment tree of the model `Obj.build`
